@@ -9,6 +9,7 @@ CONSTANTS
   MaxH = 4
   MaxTx = 1
   MaxCoins = 3
+  Kinds = {"xfer", "dep", "wd", "cx", "call", "tok", "fwd", "sst", "pay"}
 INVARIANTS Conservation TokenConservation NoNegative SpentOnce SpentMarked
 ACTION_CONSTRAINT Edge
 VIEW View
